@@ -258,7 +258,10 @@ func snapWorker(args []string) error {
 		al.line(map[string]any{"ev": "ack", "k": kind, "pages": []int{}, "n": opn, "ok": err == nil, "err": es})
 	}
 	state := func(why string) {
-		st := snapProject(s, proto.ConsistencyLevel_STRONG)
+		// read locally: a strong read would append an entry to the log after every snapshot, and "the newest
+		// snapshot covers the whole log" would never be reached (on a single node an acknowledged operation
+		// has been applied)
+		st := snapProject(s, proto.ConsistencyLevel_NONE)
 		al.line(map[string]any{"ev": "state", "why": why, "pages": st.Pages, "rows": st.Rows, "sum": st.Sum, "staged": st.Staged, "err": st.Err})
 	}
 	runOps = func(ops []string) bool {
